@@ -647,8 +647,15 @@ def directed(g):
                       g.query(A, [ax], orderby=[(g.arith('*', ay, lw), 'asc')])))
     for tag, what, v, w in (('int-1-2', 'literal', g.lit(1), g.lit(2)), ('int-1-true', 'literal-kind', g.lit(1), g.lit(True)),
                             ('int-1-float', 'literal-kind', g.lit(1), g.lit(1.0)), ('str-a-b', 'literal', g.lit('a'), g.lit('b')),
-                            ('float-05-10', 'literal', g.lit(0.5), g.lit(1.0)), ('int-0-false', 'literal-kind', g.lit(0), g.lit(False))):
+                            ('float-05-10', 'literal', g.lit(0.5), g.lit(1.0)), ('int-0-false', 'literal-kind', g.lit(0), g.lit(False)),
+                            # values python calls equal although they are different literals (other sign, other text)
+                            ('float-zero-signs', 'literal', g.lit(0.0, 'float'), g.lit(-0.0, 'float')),
+                            ('float-zero-signs-reversed', 'literal', g.lit(-0.0, 'float'), g.lit(0.0, 'float'))):
         cases.append((f'distinct-select-{tag}', what, g.query(A, [ax, g.alias(v, 'c')]), g.query(A, [ax, g.alias(w, 'c')])))
+    for tag, v, w in (('zero-signs', g.lit(0.0, 'float'), g.lit(-0.0, 'float')),):
+        cases.append((f'distinct-where-{tag}', 'literal', g.query(A, [ax], where=g.cmp('>', g.column('A', 'z'), v)),
+                      g.query(A, [ax], where=g.cmp('>', g.column('A', 'z'), w))))
+        cases.append((f'distinct-feature-{tag}', 'literal', g.arith('+', g.column('A', 'z'), v), g.arith('+', g.column('A', 'z'), w)))
     win = g.query(A, [ax, g.alias(g.window('sum', ay, [ax], [(ay, 'asc')]), 'w')])
     cases.append(('window-rebuilt', 'identical', win, win))
     rank = g.query(A, [ax, g.alias(g.window('rownumber', None, [ax]), 'w')])
